@@ -23,8 +23,8 @@ for (d, x), res in sorted(logs.items()):
     shutil.copy(f'{out}/{x}.diff', f'{dst}/patch.diff')
     shutil.copy(f'{out}/demo_{x}.rs', f'{dst}/demo.rs')
     shutil.copy(f'{out}/notes.md', f'{dst}/agent_notes.md')
-    meta = {"property": "C" + d[1:], "mutant": x, "round": rnd,
-            "origin": "independent sub-agent given only the text of the property and a scratch git worktree of /repo (nothing from /verif); brief: tools/prompts/round%d_break.txt" % rnd,
+    meta = {"property": ("C" + d[1:]) if os.path.exists(os.path.join(ROOT, "tools", "prompts", "round%d_break.txt" % rnd)) else "see agent_notes.md", "mutant": x, "round": rnd,
+            "origin": ("independent sub-agent given only the text of the property and a scratch git worktree of /repo (nothing from /verif); brief: tools/prompts/round%d_break.txt" % rnd) if os.path.exists(os.path.join(ROOT, "tools", "prompts", "round%d_break.txt" % rnd)) else ("independent sub-agent assigned source files, given the twenty property statements and a scratch git worktree of /repo (nothing from /verif); brief: tools/prompts/round%d_by_file.txt" % rnd),
             "needs_to_manifest": f"see agent_notes.md (section for mutant {x.upper()})",
             "demo_flags": flags.get(f"{d}_{x}", "(default profile, no features)"),
             "confirmed_by_me": {"how": "tools/verify_mutant.sh in the scratch worktree: git apply patch; cargo test --offline (all targets incl. doctests); cargo test --offline --features 'alloc serde zeroize const-default'; cargo build with all features incl. internals; demo as tests/demo_*.rs with the patch (must fail) and without (must pass), using demo_flags", "results": res},
